@@ -211,8 +211,8 @@ class Translator:
         if isinstance(node, ast.UnaryOp) and isinstance(node.op, ast.Not):
             p = self.presence(node.operand)
             return None if p is None else ("not", p)
-        # all(k in self.data.keys() for k in ("a", "b", ...))
-        if isinstance(node, ast.Call) and isinstance(node.func, ast.Name) and node.func.id == "all" \
+        # all(k in self.data.keys() for k in ("a", "b", ...)) / any(k in self.data for k in (...))
+        if isinstance(node, ast.Call) and isinstance(node.func, ast.Name) and node.func.id in ("all", "any") \
                 and len(node.args) == 1 and isinstance(node.args[0], ast.GeneratorExp):
             ge = node.args[0]
             if len(ge.generators) == 1 and not ge.generators[0].ifs and isinstance(ge.generators[0].target, ast.Name):
@@ -225,7 +225,7 @@ class Translator:
                         and isinstance(e.left, ast.Name) and e.left.id == var and is_self_data(e.comparators[0]):
                     out = ("pres", it.elts[0].value)
                     for x in it.elts[1:]:
-                        out = ("and", out, ("pres", x.value))
+                        out = ("and" if node.func.id == "all" else "or", out, ("pres", x.value))
                     return out
         if is_self_attr(node, "vacuum"):
             return ("flag", "self.vacuum")
@@ -338,7 +338,7 @@ class Translator:
             body = self.atoms(node.elt, inner_env)
             return pre + ([("rep", cnt, body)] if body else [])
         if isinstance(node, ast.GeneratorExp):
-            if self.presence(ast.Call(func=ast.Name(id="all"), args=[node], keywords=[])) is not None:
+            if self.presence(ast.Call(func=ast.Name(id="all"), args=[node], keywords=[])) is not None:   # inside all()/any()
                 return []
             raise TranslationError("%s: generator expression at line %d" % (self.cur, node.lineno))
         if isinstance(node, ast.JoinedStr):
